@@ -71,7 +71,7 @@ Theorem C12_description_first : forall parent c l, c_long c = Some l ->
 Proof. exact own_help_description. Qed.
 Print Assumptions C12_description_first.
 Theorem C12_usage_path : forall parent c,
-  Infix (lf_to_crlf [85;115;97;103;101;58] ++ [32] ++ hops_bytes parent ++ lf_to_crlf (c_name c)) (hops_bytes (own_help_hops parent c)).
+  Infix (lf_to_crlf H_USAGE ++ [32] ++ hops_bytes parent ++ lf_to_crlf (c_name c)) (hops_bytes (own_help_hops parent c)).
 Proof. exact own_help_usage. Qed.
 Print Assumptions C12_usage_path.
 Theorem C12_usage_positional : forall parent c d, c_sub c = None -> In d (positionals (c_args c)) ->
@@ -87,7 +87,7 @@ Theorem C12_every_option : forall parent c d p, In d (c_args c) -> option_line d
 Proof. exact own_help_option. Qed.
 Print Assumptions C12_every_option.
 Theorem C12_help_option_listed : forall parent c,
-  Infix (element_bytes [45;104;44;32;45;45;104;101;108;112] [80;114;105;110;116;32;104;101;108;112] (max_len (map fst (option_lines (c_args c)))))
+  Infix (element_bytes H_HELP_OPT_NAMES H_HELP_OPT_TEXT (max_len (map fst (option_lines (c_args c)))))
         (hops_bytes (own_help_hops parent c)).
 Proof. exact own_help_help_option. Qed.
 Print Assumptions C12_help_option_listed.
@@ -125,5 +125,5 @@ Example C12_nonvacuous :
                  (Some (false, [83], [sub])) in
   (* nested path: `help b g` prints the usage line with the full command path "b g" *)
   option_map (option_map hops_bytes) (cmd_help_enum 4 [] [top] [98] [[103]])
-  = Some (Some ([71; 13; 10; 13; 10] ++ [85;115;97;103;101;58;32;98;32;103;13;10] ++ [13;10] ++ [79;112;116;105;111;110;115;58;13;10] ++ [32;32;45;104;44;32;45;45;104;101;108;112;32;32;80;114;105;110;116;32;104;101;108;112;13;10])).
+  = Some (Some ([71; 13; 10; 13; 10] ++ H_USAGE ++ [32;98;32;103;13;10] ++ [13;10] ++ H_OPTIONS ++ [13;10] ++ [32;32] ++ H_HELP_OPT_NAMES ++ [32;32] ++ H_HELP_OPT_TEXT ++ [13;10])).
 Proof. vm_compute. reflexivity. Qed.
